@@ -133,25 +133,25 @@ static size_t run_legacy_api(Sess* s, const Plan* p, ZSTD_CCtx* c) {
         for (k = 0; k < rep; k++) {
             uint8_t* src; uint8_t* dst; ZSTD_inBuffer in; ZSTD_outBuffer out; size_t r; size_t n = in_len; const char* e;
             if (n > s->in_size - s->in_pos) n = s->in_size - s->in_pos;
-            src = (uint8_t*)sim_buf_new(n); if (n) memcpy(src, s->in + s->in_pos, n); dst = (uint8_t*)sim_buf_new(out_cap);
+            if (n <= 65536) { src = (uint8_t*)sess_buf_get(4, n); if (n) memcpy(src, s->in + s->in_pos, n); } else src = s->in + s->in_pos;
+            dst = (uint8_t*)sess_buf_get(5, out_cap);
             in.src = src; in.size = n; in.pos = 0; out.dst = dst; out.size = out_cap; out.pos = 0;
             r = ZSTD_compressStream(c, &out, &in); frame_open = 1;
-            if (ZSTD_isError(r)) { sim_buf_free(src); sim_buf_free(dst); return r; }
+            if (ZSTD_isError(r)) return r;
             sess_wire_append(s, dst, out.pos); s->in_pos += in.pos; s->ncalls++;
             if ((e = sim_buf_check(dst)) != NULL) sim_violation("dst_overrun", "compressStream: %s", e);
             if (n > 0 && out_cap > 0 && in.pos == 0 && out.pos == 0) sim_violation("no_progress", "ZSTD_compressStream given %zu input and %zu output bytes made no progress", n, out_cap);
             if (dir == 1 || dir == 2) {
                 /* flush / end must be repeated by the caller until they return 0; the plan's out_cap is reused */
                 long g2 = 0; size_t cap2 = out_cap ? out_cap : 1;
-                if (dir == 2 && in.pos < n) { sim_buf_free(src); sim_buf_free(dst); continue; }   /* endStream takes no input: finish feeding first */
+                if (dir == 2 && in.pos < n) continue;   /* endStream takes no input: finish feeding first */
                 for (;;) {
-                    uint8_t* d2 = (uint8_t*)sim_buf_new(cap2); ZSTD_outBuffer o2; o2.dst = d2; o2.size = cap2; o2.pos = 0;
+                    uint8_t* d2 = (uint8_t*)sess_buf_get(6, cap2); ZSTD_outBuffer o2; o2.dst = d2; o2.size = cap2; o2.pos = 0;
                     r = dir == 1 ? ZSTD_flushStream(c, &o2) : ZSTD_endStream(c, &o2);
-                    if (ZSTD_isError(r)) { sim_buf_free(d2); sim_buf_free(src); sim_buf_free(dst); return r; }
+                    if (ZSTD_isError(r)) return r;
                     if ((e = sim_buf_check(d2)) != NULL) sim_violation("dst_overrun", "flushStream/endStream: %s", e);
                     sess_wire_append(s, d2, o2.pos); s->ncalls++;
                     if (r != 0 && o2.pos == 0) sim_violation("no_progress", "%s returned %zu with %zu bytes of output space and wrote nothing", dir == 1 ? "flushStream" : "endStream", r, cap2);
-                    sim_buf_free(d2);
                     if (r == 0) break;
                     if (++g2 > 10000000) sim_violation("livelock", "flushStream/endStream never completes");
                 }
@@ -159,7 +159,6 @@ static size_t run_legacy_api(Sess* s, const Plan* p, ZSTD_CCtx* c) {
                 else { if (s->nframes < 256) { SessFrame* f = &s->frames[s->nframes++]; f->in_start = s->frame_in_start; f->in_end = s->in_pos; f->w_start = s->frame_w_start; f->w_end = s->wire_size; }
                        s->frame_in_start = s->in_pos; s->frame_w_start = s->wire_size; frame_open = 0; if (s->on_frame_complete) s->on_frame_complete(s, s->ud); }
             }
-            sim_buf_free(src); sim_buf_free(dst);
             if (i == p->nops && !frame_open && s->in_pos == s->in_size) break;   /* final stage: stop once the last frame is closed */
             if (s->in_pos == s->in_size && dir == 0 && k > 3) break;
             if (++guard > 3000000) sim_violation("livelock", "legacy streaming history too long");
